@@ -12,7 +12,8 @@ EXPLANATION = (
     "entry of tables/recursion.py whose class bounds its depth by data *nesting* (quoted triples, nested lists, "
     "expression/algebra depth), by log(n), or by a constant; a cycle that is not in the table, a new recursive call "
     "site inside an audited cycle, or one of the automatic loop-as-recursion patterns (self call with all arguments "
-    "unchanged; self call on a suffix slice of an own parameter) is a violation. "
+    "unchanged; self call on a suffix slice of an own parameter; or, in any function, an iterator replaced inside a loop by an "
+    "adaptor of itself, which nests one `next()` frame per iteration) is a violation. "
     "NOT decided: frame sizes, optimiser behaviour, recursion inside third-party crates (rio, json-ld, regex).")
 
 ALLOWED_CLASSES = ("nesting", "logarithmic", "query-bounded", "constant", "out-of-scope")
@@ -65,6 +66,41 @@ def auto_patterns(fn, t):
     return hits
 
 
+ADAPTORS = r"iter::Iterator::(chain|map|filter|filter_map|flat_map|flatten|zip|skip|take|skip_while|take_while|map_while|peekable|inspect|scan|fuse|step_by|enumerate|rev)$"
+
+
+def iterator_nesting_hits(fn):
+    """P3: inside a loop, an iterator is replaced by an adaptor of itself (`it = Box::new(it.chain(x))`): no call-graph
+    recursion, but one more level of nested `next()` frames per iteration when the result is consumed."""
+    from mirutil import forward_aliases, root_local
+    hits = []
+    for bi, t in fn.calls():
+        if not call_name_matches(t, ADAPTORS) or not t["args"] or t["args"][0][0] == "k" or len(t["dest"]) != 1:
+            continue
+        if bi not in fn.reachable(t["to"]):
+            continue          # not in a loop
+        src_l, src_path = root_local(fn, t["args"][0])
+        if src_l is None:
+            continue
+        # where does the adaptor end up?  follow moves, Box::new and unsizing casts forward
+        als = set(forward_aliases(fn, t["dest"][0], limit=12))
+        grew = True
+        while grew:
+            grew = False
+            for b2i, t2 in fn.calls():
+                if call_name_matches(t2, r"boxed::Box::<T>::new$|convert::Into<.*>>?::into$|convert::From<.*>>?::from$") and t2["args"] \
+                        and t2["args"][0][0] != "k" and t2["args"][0][1][0] in als and len(t2["dest"]) == 1 and t2["dest"][0] not in als:
+                    als |= set(forward_aliases(fn, t2["dest"][0], limit=12))
+                    grew = True
+        for b in fn.blocks:
+            for st in b["s"]:
+                if st[0] == "=" and st[2][0] in ("use", "cast") :
+                    op = st[2][1] if st[2][0] == "use" else st[2][2]
+                    if op[0] != "k" and op[1][0] in als and st[1][0] == src_l and [p for p in st[1][1:] if p != "*"] == src_path:
+                        hits.append((bi, t))
+    return hits
+
+
 def controls(ck):
     """on the control crate: an unlisted cycle is reported; inside listed cycles the loop-as-recursion patterns fire;
     the loop-ified twin is no cycle at all"""
@@ -78,6 +114,8 @@ def controls(ck):
     ck.control("R16.2", "Skipper::pos_next_even (P1: self call with unchanged arguments)", pr.fired(r"^R16\.2@Skipper::pos_next_even#P1$"))
     ck.control("R16.2", "pos_count_escapes (P2: self call on a suffix of its parameter)", pr.fired(r"^R16\.2@pos_count_escapes#P2$"))
     ck.control("R16.1", "Skipper::neg_next_even (loop)", pr.fired(r"neg_next_even"), expect=False)
+    ck.control("R16.2", "pos_nested_chain (P3: iterator re-wrapped in a loop)", pr.fired(r"^R16\.2@pos_nested_chain#P3$"))
+    ck.control("R16.2", "neg_flat_chain (collect, then flatten)", pr.fired(r"neg_flat_chain"), expect=False)
     pr2 = core.Probe()
     analyse(pr2, fx, [], floor=0)
     ck.control("R16.1", "Skipper::pos_next_even (unlisted)", pr2.fired(r"^R16\.1@Skipper::pos_next_even#unclassified$"))
@@ -144,4 +182,17 @@ def analyse(ck, facts, TABLE, floor):
                             ck.bad("R16.2", "R16.2@%s#%s" % (a, pid), "%s %s" % (a, msg), "%s:%s" % (t["file"], t["line"]))
     # automatic patterns also apply to unclassified/new cycles (already violations) — nothing more to do.
     ck.floor("R16.1", "recursive components analysed", len(comps), floor)
+    # P3 on every function (not only on cycles)
+    n3 = 0
+    for f in facts.fns.values():
+        if f.crate not in ("sophia_api", "sophia_inmem", "sophia_turtle", "sophia_sparql", "sophia_jsonld", "sophia_rio", "sophia_xml",
+                           "sophia_resource", "sophia_isomorphism", "sophia_term", "sophia_iri", "vfix"):
+            continue
+        n3 += 1
+        for bi, t in iterator_nesting_hits(f):
+            root = f if f.kind != "Closure" else facts.fns.get(f.root, f)
+            ck.bad("R16.2", "R16.2@%s#P3" % root.name, "%s replaces an iterator, inside a loop, by an adaptor of itself (%s): the iterator "
+                   "returned is nested once per iteration, and consuming it needs one stack frame per level (e.g. per named graph)"
+                   % (root.name, t["f"]["name"].split("::")[-1]), "%s:%s" % (t["file"], t["line"]))
+    ck.extra["functions_scanned_for_iterator_nesting"] = n3
     ck.extra["table_entries_unused"] = sorted(e["members"][0] for k, e in table.items() if k not in seen_entries)
